@@ -10,6 +10,7 @@ package rules
 import (
 	"fmt"
 	"go/token"
+	"go/types"
 	"strings"
 
 	"golang.org/x/tools/go/ssa"
@@ -18,14 +19,20 @@ import (
 )
 
 type strmState struct {
-	S, B  []string
-	sums  [][]string           // S at each state.Sum
-	cells map[ssa.Value]string // content token of local cells (challenge)
-	vals  map[ssa.Value]string // tokens of call results computed on this path (digest)
-	ints  map[ssa.Value]int64  // concrete values of integer phis (loops over a literal list of chunks)
-	ret   string
-	notes []string
-	undec string
+	S, B   []string
+	sums   [][]string           // S at each state.Sum
+	cells  map[ssa.Value]string // content token of local cells (challenge)
+	vals   map[ssa.Value]string // tokens of call results computed on this path (digest)
+	ints   map[ssa.Value]int64  // concrete values of integer phis (loops over a literal list of chunks)
+	ret    string
+	notes  []string
+	undec  string
+	defers []strmDefer // deferred calls that touch the transcript, innermost frame last
+}
+
+type strmDefer struct {
+	fr *strmFrame
+	d  *ssa.Defer
 }
 
 func (s *strmState) clone() *strmState {
@@ -46,6 +53,7 @@ func (s *strmState) clone() *strmState {
 		n.ints[k] = v
 	}
 	n.notes = append([]string(nil), s.notes...)
+	n.defers = append([]strmDefer(nil), s.defers...)
 	return n
 }
 
@@ -114,6 +122,9 @@ func (c *Ctx) strmTok(v ssa.Value, fr *strmFrame, st *strmState, d int) string {
 		if x.Low == nil && x.High == nil && x.Max == nil {
 			return inner
 		}
+		if hi, isK := core.ConstInt(x.High); x.High != nil && isK && hi == 0 {
+			return "ε"
+		}
 		return fmt.Sprintf("part(%s)[%s:%s]", inner, optP(x.Low), optP(x.High))
 	case *ssa.Call:
 		f := core.Callee(x.Common())
@@ -124,7 +135,17 @@ func (c *Ctx) strmTok(v ssa.Value, fr *strmFrame, st *strmState, d int) string {
 				return f.Name() + "(" + strings.TrimLeft(c.strmTok(x.Call.Args[0], fr, st, d+1), "*&") + ")"
 			}
 		}
+		// append(a, b...): the bytes of a followed by the bytes of b
+		if bi, isB := x.Call.Value.(*ssa.Builtin); isB && bi.Name() == "append" && len(x.Call.Args) == 2 {
+			if _, isSlice := x.Call.Args[1].Type().Underlying().(*types.Slice); isSlice {
+				return c.strmTok(x.Call.Args[0], fr, st, d+1) + " ++ " + c.strmTok(x.Call.Args[1], fr, st, d+1)
+			}
+		}
 		return "?call:" + core.CalleeName(x.Common())
+	case *ssa.MakeSlice:
+		if k, isK := core.ConstInt(x.Len); isK && k == 0 {
+			return "ε"
+		}
 	case *ssa.UnOp:
 		if x.Op == token.MUL {
 			// element k of a literal list: the value stored at that position
@@ -306,22 +327,72 @@ func strmInt(v ssa.Value, st *strmState) (int64, bool) {
 }
 
 func (c *Ctx) strmStep(ins ssa.Instruction, fr *strmFrame, st *strmState, depth int) []*strmState {
+	// deferred calls of this frame run, last first, where the function runs its defers
+	if _, isRD := ins.(*ssa.RunDefers); isRD {
+		states := []*strmState{st}
+		for {
+			var next []*strmState
+			progressed := false
+			for _, s := range states {
+				k := -1
+				for i := len(s.defers) - 1; i >= 0; i-- {
+					if s.defers[i].fr == fr {
+						k = i
+						break
+					}
+				}
+				if k < 0 || s.undec != "" {
+					next = append(next, s)
+					continue
+				}
+				d := s.defers[k]
+				s.defers = append(s.defers[:k:k], s.defers[k+1:]...)
+				progressed = true
+				next = append(next, c.strmApply(d.d.Common(), nil, d.d, fr, s, depth)...)
+			}
+			states = next
+			if !progressed {
+				break
+			}
+		}
+		return states
+	}
 	ci, ok := ins.(ssa.CallInstruction)
 	if !ok {
 		return []*strmState{st}
 	}
+	if d, isDefer := ins.(*ssa.Defer); isDefer {
+		cc := d.Common()
+		touches := false
+		for _, a := range cc.Args {
+			if a == fr.recv || recvField(a, fr) != "" {
+				touches = true
+			}
+		}
+		if cc.IsInvoke() && recvField(cc.Value, fr) != "" {
+			touches = true
+		}
+		if touches {
+			st.defers = append(st.defers, strmDefer{fr, d})
+		}
+		return []*strmState{st}
+	}
 	if _, isCall := ins.(*ssa.Call); !isCall {
 		cc := ci.Common()
-		// go / defer touching the transcript: outside the model
+		// a go statement touching the transcript: outside the model
 		for _, a := range cc.Args {
-			if a == fr.recv {
-				st.undec = "the transcript is used in a go/defer statement at " + c.P.Pos(ins.Pos())
+			if a == fr.recv || recvField(a, fr) != "" {
+				st.undec = "the transcript is used in a go statement at " + c.P.Pos(ins.Pos())
 			}
 		}
 		return []*strmState{st}
 	}
 	call := ins.(*ssa.Call)
-	cc := call.Common()
+	return c.strmApply(call.Common(), call, ins, fr, st, depth)
+}
+
+// strmApply: the effect of one call (an ordinary call, or a deferred one when the defers run) on the stream state.
+func (c *Ctx) strmApply(cc *ssa.CallCommon, call *ssa.Call, ins ssa.Instruction, fr *strmFrame, st *strmState, depth int) []*strmState {
 	if cc.IsInvoke() {
 		if recvField(cc.Value, fr) == "state" {
 			switch cc.Method.Name() {
@@ -330,14 +401,16 @@ func (c *Ctx) strmStep(ins ssa.Instruction, fr *strmFrame, st *strmState, depth 
 				if bc, isCall := arg.(*ssa.Call); isCall && core.IsMethod(core.Callee(bc.Common()), "bytes", "Buffer", "Bytes") && recvField(bc.Call.Args[0], fr) == "buff" {
 					st.S = append(st.S, st.B...)
 				} else {
-					st.S = append(st.S, c.strmTok(arg, fr, st, 0))
+					st.S = append(st.S, splitToks(c.strmTok(arg, fr, st, 0))...)
 				}
 			case "Sum":
 				if !core.IsNilConst(cc.Args[0]) {
 					st.notes = append(st.notes, "Sum is given a prefix")
 				}
 				st.sums = append(st.sums, append([]string(nil), st.S...))
-				st.vals[call] = "H[" + strings.Join(st.S, " ") + "]"
+				if call != nil {
+					st.vals[call] = "H[" + strings.Join(st.S, " ") + "]"
+				}
 			case "Reset":
 				st.S = nil
 			default:
@@ -354,7 +427,7 @@ func (c *Ctx) strmStep(ins ssa.Instruction, fr *strmFrame, st *strmState, depth 
 	case core.IsMethod(f, "bytes", "Buffer", f.Name()) && len(cc.Args) > 0 && recvField(cc.Args[0], fr) == "buff":
 		switch f.Name() {
 		case "Write":
-			st.B = append(st.B, c.strmTok(cc.Args[1], fr, st, 0))
+			st.B = append(st.B, splitToks(c.strmTok(cc.Args[1], fr, st, 0))...)
 		case "Reset":
 			st.B = nil
 		case "Bytes", "Len", "Cap":
@@ -396,7 +469,7 @@ func (c *Ctx) strmStep(ins ssa.Instruction, fr *strmFrame, st *strmState, depth 
 		}
 		exits := c.strmRun(nf, st, depth+1)
 		for _, e := range exits {
-			if e.ret != "" {
+			if e.ret != "" && call != nil {
 				e.vals[call] = e.ret
 			}
 			e.ret = ""
@@ -484,4 +557,15 @@ func (c *Ctx) strmFacts() int {
 		return ""
 	})
 	return n
+}
+
+// splitToks: a message assembled with append is the sequence of its parts; the empty slice contributes nothing.
+func splitToks(t string) []string {
+	var out []string
+	for _, p := range strings.Split(t, " ++ ") {
+		if p != "ε" {
+			out = append(out, p)
+		}
+	}
+	return out
 }
